@@ -18,26 +18,27 @@ def main(tier, args):
     with ThreadPoolExecutor(2) as ex:
         cmd, fe = list(ex.map(b, ["cmd", "fe"]))
     quick = tier == "quick"
-    ed_depth, cmd_depth, fe_len, dl = (6, 4, 4, 75) if quick else (8, 6, 5, 1200)
+    print("C13: build %.1fs" % (time.time() - t0)); t1 = time.time()
+    # quick: the full length-4 sweep goes through onTcpReceived directly (exact-capacity buffers), the socket path gets length<=3 + all frames
+    ed_depth, cmd_depth, fe_len, fe_len_sock, dl = (6, 4, 4, 3, 75) if quick else (8, 6, 5, 5, 1200)
     dl = int(os.environ.get("VERIF_DEADLINE_S", dl))
-    nshard = 4
     jobs = []
-    # longest first: front-end sweeps, then command layer, then editor
-    for s in range(nshard):
-        for f in ("telnetd", "tcprpc"):
-            for m in ("sock", "direct"):
-                jobs.append(("fe:%s:%s:%d" % (f, m, s), [fe, f, m, str(fe_len), str(s), str(nshard)]))
-    for L in (20, 21, 1, 0):
+    # single-process searches first, the sharded front-end sweeps fill the remaining slots and time
+    for L in (21, 20, 1, 0):
         jobs.append(("cmd:hist%d" % L, [cmd, str(L), str(cmd_depth)]))
     for mode in ("echo", "noecho", "quiet"):
         for pre in (19, 0):
             jobs.append(("editor:%s:prefill%d" % (mode, pre), [editor, mode, str(ed_depth), str(pre)]))
+    for m, flen, nshard in (("direct", fe_len, 6), ("sock", fe_len_sock, 1 if quick else 6)):
+        for s in range(nshard):
+            for f in ("telnetd", "tcprpc"):
+                jobs.append(("fe:%s:%s:%d" % (f, m, s), [fe, f, m, str(flen), str(s), str(nshard)]))
     if args.only:
         jobs = [j for j in jobs if j[0].startswith(args.only)]
     res = vf.Result(); os.makedirs(vf.BUILD + "/C13", exist_ok=True); log = open(vf.BUILD + "/C13/log.txt", "w")
     # sanitizer reports are not symbolized during the sweep (0.1 s each); the first 3 inputs of every signature are
     # re-run by the harness itself (--one) with symbolization to get file:line
-    env = {"VERIF_DEADLINE_S": str(dl), "ASAN_OPTIONS": "detect_leaks=0:abort_on_error=0:symbolize=0", "UBSAN_OPTIONS": "print_stacktrace=0:symbolize=0"}
+    env = {"VERIF_DEADLINE_S": str(dl), "C13_DEADLINE_EPOCH": str(int(time.time()) + dl), "ASAN_OPTIONS": "detect_leaks=0:abort_on_error=0:symbolize=0", "UBSAN_OPTIONS": "print_stacktrace=0:symbolize=0"}
     os.makedirs("/tmp/c13-sock", exist_ok=True)
     try:
         vf.run_procs(res, jobs, env=env, log=log)
@@ -61,12 +62,12 @@ def main(tier, args):
                    "{0,1,19,20,21,-1,-20,-21,2147483647,-2147483648,99999999999,-99999999999,x}}, each either in its own segment followed by a real loop pass or glued to the previous "
                    "command's segment, on prefilled histories of length {0,1,20,21}; oracle = one prompt per command line, probe argv of the addressed entry or an error message when it does not "
                    "exist, listing and stored history equal to the most recent 20 stored lines, exit ends the session on the next loop pass, no crash / sanitizer report / exception / hang. "
-                   "(2, engine I) real Telnetd and TcpRpc listening on a unix stream socket with a real epoll loop, fresh client connection per case: every byte string of length<=%d over "
+                   "(2, engine I) real Telnetd and TcpRpc listening on a unix stream socket with a real epoll loop, fresh client connection per case: every byte string of length<=%d (mode direct) / <=%d (mode sock) over "
                    "{IAC,SB,SE,WILL,DO,NOP,1,31,ESC,'[','A','3','~',CR,LF,NUL,'a',0xC2,0x80} in every 2-way segmentation, every prefix truncation of well-formed NAWS/TTYPE/TSPEED/negotiation "
                    "frames and NAWS-style frames with 0..5 payload bytes (every 2-way segmentation, and with the last segment filling the receive buffer exactly), exit/quit teardown inputs; "
                    "delivered through the socket (mode sock) and directly into the service's onTcpReceived with an exact-capacity Buffer (mode direct); oracle = child survives, no ASan/UBSan "
                    "report, no exception, and after 'NUL NUL IAC SE CR LF' the session executes a probe command exactly once and its answer arrives on the socket"
-                   % (ed_depth, cmd_depth, fe_len),
+                   % (ed_depth, cmd_depth, fe_len, fe_len_sock),
               assumptions=["history navigation conventions and the storage rule of DESIGN 1.7 (Down past the newest entry gives an empty line; stored lines = non-empty executed lines other than "
                            "'history' and failed '!' references, '!' references stored in expanded form); 'history' numbers entries from 0 the way !n addresses them",
                            "an error report is any answer containing 'Error'/'error' with no command executed",
